@@ -4,7 +4,7 @@
 //   files:    path \x02 content, separated by \x01 (paths relative to the scratch root)
 //   mappings: physical-relative \x02 virtual, separated by \x01
 //   requests: kind \x02 current-virtual \x02 current-physical-relative \x02 request, separated by \x01
-//             kinds: info (fileio.get_info), load (loadFile), pre (preprocessFile), exec (execVM; the file
+//             kinds: info (fileio.get_info), load (loadFile), pre (preprocessFile), exec (execVM from inside a call with an argument; the file
 //             sets the global gx), inc (a script file at current that #includes the request, preprocessed)
 // The scratch root is written /$R (an absolute path), the file outside every mapped directory /$O.
 namespace vh
@@ -82,7 +82,7 @@ namespace vh
                         size_t qp = 0;
                         while ((qp = quoted.find('"', qp)) != std::string::npos) { quoted.insert(qp, "\""); qp += 2; }
                         std::string text = q[0] == "load" ? "gr = loadFile \"" + quoted + "\"" : q[0] == "pre" ? "gr = preprocessFile \"" + quoted + "\"" :
-                            "gx = 0; gh = execVM \"" + quoted + "\"; gr = 1";
+                            "gx = 0; gh = [7] call { execVM \"" + quoted + "\" }; gr = 1";
                         auto set = v.rt->parser_sqf().parse(*v.rt, text, sqf::runtime::fileio::pathinfo(std::string("q"), std::string()));
                         if (!set.has_value()) { out += "parse-error"; continue; }
                         auto context = v.rt->context_create().lock();
